@@ -48,10 +48,11 @@ def plan(tier, seed):
 def gen_scenario(rng: random.Random) -> Dict[str, Any]:
     nsvc = rng.choice([1, 2, 3])
     svcs = []
+    hostnames = [R.spell(rng, "host%d" % k) + ".local." for k in range(nsvc)]
     for i in range(nsvc):
         s = R.gen_service(rng, type_=rng.choice(["_http._tcp.local.", "_ipp._tcp.local."]), min_ttl=10)
         s.name = "svc%d.%s" % (i, s.type)
-        s.server = "host%d.local." % (i if rng.random() < 0.7 else 0)
+        s.server = hostnames[i if rng.random() < 0.7 else 0]
         svcs.append(s)
     start_wait = rng.choice([0, 500, 990, 1000, 1010, 2000, 5000])
     nq = rng.choice([1, 1, 2, 2, 3, 4, 6])
